@@ -236,6 +236,7 @@ def lemmas(ex, reg, R):
     r1, r2 = z3.Int("r1"), z3.Int("r2")
     st.env = dict(array=arr, val=val)
     ctx = Ctx(None, None, None, tag="lemma")
+    ctx.entry = st              # the post-condition speaks of old(val): in the lemma the query is the same throughout
     st.assume(arr.length >= 1)
     for r in CU.search_bisection.requires:
         st.assume(to_bool(ex.eval_spec(r, st, ctx)))
